@@ -40,6 +40,13 @@ Proof. rewrite len_zlen, zlen_cons. pose proof (zlen_nonneg l). apply Z.eqb_neq.
 Lemma len_cons2_eqb1 {A} (a b : A) l : (len (a :: b :: l) =? 1) = false.
 Proof. rewrite len_zlen, !zlen_cons. pose proof (zlen_nonneg l). apply Z.eqb_neq. lia. Qed.
 
+Lemma zlen_cons_gtb {A} (a : A) l : (zlen (a :: l) >? 0) = true.
+Proof. exact (len_cons_gtb a l). Qed.
+Lemma zlen_cons_eqb0 {A} (a : A) l : (zlen (a :: l) =? 0) = false.
+Proof. exact (len_cons_eqb0 a l). Qed.
+Lemma zlen_cons2_eqb1 {A} (a b : A) l : (zlen (a :: b :: l) =? 1) = false.
+Proof. exact (len_cons2_eqb1 a b l). Qed.
+
 (* ---------- indexing inside the bounds ---------- *)
 Lemma py_index_in n i : 0 <= i < n -> py_index n i = Some i.
 Proof.
@@ -126,6 +133,30 @@ Proof.
   replace (Z.to_nat (Z.max 0 (zlen l + - d) - 0)) with (Z.to_nat (zlen l - d)) by lia.
   reflexivity.
 Qed.
+
+(* l[:] is a copy; l[0:b] is l[:b] *)
+Lemma py_slice_all {A} (l : list A) : py_slice l None None = l.
+Proof.
+  unfold py_slice, py_bound. rewrite Z.sub_0_r. change (skipn (Z.to_nat 0) l) with l.
+  apply firstn_all2. unfold zlen. lia.
+Qed.
+
+Lemma py_slice_from0 {A} (l : list A) b : py_slice l (Some 0) b = py_slice l None b.
+Proof.
+  unfold py_slice. replace (py_bound (zlen l) (Some 0) 0) with 0; [reflexivity|].
+  unfold py_bound. change (0 <? 0) with false. cbv iota. pose proof (zlen_nonneg l). lia.
+Qed.
+
+(* normalise the slices of the generated code to the firstn / skipn of the hand model; every rewrite carries its
+   bounds obligation, discharged by lia from the hypotheses in the context *)
+Ltac py_slices :=
+  repeat first
+    [ rewrite py_slice_all
+    | rewrite py_slice_from0
+    | rewrite py_slice_last by lia
+    | rewrite py_slice_butlast by lia
+    | rewrite py_slice_prefix by lia
+    | rewrite py_slice_suffix by lia ].
 
 (* the hazards, as facts about PySem: l[-0:] is the whole list, not the empty one *)
 Lemma py_slice_minus_zero {A} (l : list A) : py_slice l (Some (- 0)) None = l.
